@@ -1,5 +1,6 @@
 """C06 — licence inventory: missing, unused, bad, deprecated and extension-less licences."""
 import json
+import random
 
 from core import Property, Stream
 import reports_common as rc
@@ -24,6 +25,116 @@ class InventoryOracle(rc.ReportStream):
         return rc.diff_kind(case, got, exp, CATS)
 
 
+BOTH_LAYOUTS = ["one-expression", "two-tags", "two-files", "many-files", "mixed-sources"]
+BOTH_PROVISIONS = ["neither", "plain-only", "plus-only", "both", "plus-only.md", "plus-only-subdir", "plain-only-noext"]
+
+
+def both_spellings_case(rng, cls, x, layout, prov):
+    """`X` and `X+` are both used in one project (candidate sets {X} and {X+, X}), LICENSES/ provides X.*, X+.*, both or neither:
+    every occurrence is judged on its own, whatever was judged before it in the same process"""
+    K, xp = rc.K, rc.plus(x)
+    filler = "ISC" if x not in ("ISC",) else "0BSD"
+    files = [rc.mkfile("filler.py", [K(filler)])]
+    lic = [filler + ".txt"]
+    glob = "none"
+    pair = [x, xp]
+    if rng.random() < 0.5:
+        pair.reverse()
+    if layout == "one-expression":
+        op = rng.choice(["AND", "OR"])
+        e = [op, K(pair[0]), K(pair[1])]
+        if rng.random() < 0.4:
+            e = [rng.choice(["AND", "OR"]), K(filler), e] if rng.random() < 0.5 else [rng.choice(["AND", "OR"]), e, K(filler)]
+        files.append(rc.mkfile("subject.py", [e]))
+    elif layout == "two-tags":
+        files.append(rc.mkfile("subject.sql", [K(pair[0]), K(pair[1])], style="sql"))
+    elif layout == "two-files":
+        # the walk hands the files out in directory order, which is not the generator's to choose: names on both sides of each other
+        a, b = rng.choice([("a.py", "z.py"), ("z.py", "a.py"), ("src/m.py", "lib/m.py"), ("m.py", "src/deep/m.py"), ("0/x.py", "x.py")])
+        files.append(rc.mkfile(a, [K(pair[0])]))
+        files.append(rc.mkfile(b, [K(pair[1])]))
+    elif layout == "many-files":
+        names = ["a.py", "b/c.py", "d.py", "e/f/g.py", "h.py", "zz.py", "0.py", "m/n.py"]
+        rng.shuffle(names)
+        for i, n in enumerate(names[:rng.randint(3, 6)]):
+            t = pair[i % 2]
+            files.append(rc.mkfile(n, [K(t) if rng.random() < 0.6 else [rng.choice(["AND", "OR"]), K(filler), K(t)]]))
+    else:
+        glob = "toml"
+        files.append(rc.mkfile("dir/subject.txt", [K(pair[0])], how="global", style="txt"))
+        files.append(rc.mkfile("logo.png", [K(pair[1])], how="dotlicense", kind="binary"))
+        if rng.random() < 0.5:
+            files.append(rc.mkfile("third.c", [K(rng.choice(pair))], style="c"))
+    lic += {"neither": [], "plain-only": [x + ".txt"], "plus-only": [xp + ".txt"], "both": [x + ".txt", xp + ".txt"],
+            "plus-only.md": [xp + ".md"], "plus-only-subdir": ["sub/dir/" + xp + ".txt"], "plain-only-noext": [x]}[prov]
+    return {"files": files, "lic": lic, "glob": glob, "cell": [cls, x, "both-spellings:" + layout, prov]}
+
+
+def both_spellings_cases(tier, rng):
+    cl = rc.id_classes()
+    t = rc.table()
+    # identifiers whose `X+` is itself on the list (GPL-2.0+ …) and identifiers whose `X+` is only a spelling (Apache-1.0+, MIT+)
+    listed_plus = sorted(x for x in t if x + "+" in t)
+    for cls in ("current", "deprecated", "licref", "unknown", "listed-plus"):
+        pool = listed_plus if cls == "listed-plus" else sorted(x for x in cl.get(cls, []) if not x.endswith("+"))
+        if not pool:
+            continue
+        for layout in BOTH_LAYOUTS:
+            for prov in BOTH_PROVISIONS:
+                for _ in range(3 if tier == "thorough" else 1):
+                    yield both_spellings_case(rng, cls, rng.choice(pool), layout, prov)
+
+
+IGNORED_EXTS = [".bak", ".orig", ".html", ".txt~", ".md", ".tmp", ".rej"]
+
+
+def ignored_text_case(rng, cls, x, use):
+    """a Git repository whose ignore rules match licence texts below LICENSES/ (untracked, beside tracked ones — Git lists nothing
+    inside a wholly untracked directory): the property's inventory speaks of the files in LICENSES/, not of the VCS, so an
+    ignored text provides its identifier / is unused / bad / deprecated like any other"""
+    c = rc.product_case(cls, x, use, "absent")
+    filler = c["lic"][0][:-4]
+    ext = rng.choice(IGNORED_EXTS)
+    sub = rng.choice(["", "", "sub/", "third party/x/"])
+    names = []
+    if rng.random() < 0.8:
+        names.append(sub + (rc.plus(x) if use == "plus" and rng.random() < 0.3 else x) + ext)      # the subject's own text
+    t = rc.table()
+    others = sorted(i for i in t if i not in (x, filler, "MIT") and not i.endswith("+") and "." not in i)
+    r = rng.random()
+    if r < 0.35:
+        names.append(sub + rng.choice(others) + ext)                                                    # one nobody uses
+    elif r < 0.55:
+        names.append(sub + rng.choice(["notes", "README", "LicenseRef-vendor", "licence text", "x_y"]) + ext)  # a name that is no identifier (or a LicenseRef-)
+    elif r < 0.7:
+        names.append(sub + rng.choice(sorted(i for i in others if t[i])) + ext)                         # a deprecated one
+    if not names:
+        names.append(sub + x + ext)
+    c["lic"] += names
+    where = rng.choice(["root", "root", "LICENSES"])
+    style = rng.choice(["ext", "ext", "exact", "dir"] if sub else ["ext", "ext", "exact"])
+    if style == "ext":
+        pats = ["*" + ext]
+    elif style == "exact":
+        pats = [("/LICENSES/" if where == "root" else "/") + n.replace(" ", "\\ ") for n in names]
+    else:
+        d = sub.split("/")[0].replace(" ", "\\ ")
+        pats = [("/LICENSES/" if where == "root" else "/") + d + "/"]
+        # Git does not descend into an ignored directory; one tracked file inside is not possible then: all texts there are ignored
+    c.update(git=True, gitadd=True, gitignore_lic=filler, licignore={"pats": pats, "where": where})
+    c["cell"] = [cls, x, "git-ignored-text:" + use, style + "@" + where]
+    return c
+
+
+def ignored_text_cases(tier, rng):
+    cl = rc.id_classes()
+    for cls in ("current", "deprecated", "licref", "unknown"):
+        pool = sorted(cl[cls])
+        for use in ("alone", "plus", "and", "two-tags", "dotlicense", "toml", "unused"):
+            for _ in range(4 if tier == "thorough" else 1):
+                yield ignored_text_case(rng, cls, rng.choice(pool), use)
+
+
 class ProductStream(InventoryOracle, Stream):
     name = "product"
     rule = ("identifier class (current, deprecated, exception, LicenseRef-, unknown, wrong case, ill-formed LicenseRef- look-alike: "
@@ -39,13 +150,71 @@ class ProductStream(InventoryOracle, Stream):
             "(thorough: every identifier of the bundled lists at least twice more), plus the identifiers whose stem is an identifier, "
             "the LicenseRef-*Unknown* family, look-alikes that can only be file names (`LicenseRef-a~b`, blanks, `@`), and the GNU "
             "families (every X with X-only and X-or-later on the list): used spelling {X, X-only, X-or-later} x {plain, '+'} x provided "
-            "spelling {X, X+, X-only, X-or-later} (quick: 90 of the combinations, thorough: all); real `reuse lint --json` on the generated tree vs the model fed from the generator's "
+            "spelling {X, X+, X-only, X-or-later} (quick: 90 of the combinations, thorough: all); and cells in which BOTH spellings X and X+ are used "
+            "in one project (one expression, two tags of one file, two files on either side of each other in the walk, three to six files alternating, "
+            "REUSE.toml + .license + header) x LICENSES/ providing neither, X.*, X+.* (also .md, sub-directory), both, for identifiers of every class "
+            "incl. those whose X+ is itself on the list, all judged in one process (--no-multiprocessing); and Git repositories whose ignore rules (`*.bak`-like patterns, exact paths, a whole "
+            "sub-directory; in the root .gitignore or in LICENSES/.gitignore) match untracked licence texts below LICENSES/ beside tracked ones "
+            "(the subject's own text, an unused one, a name that is no identifier, a deprecated one): every file in LICENSES/ counts; real `reuse lint --json` on the generated tree vs the model fed from the generator's "
             "records; oracle = the set definitions of the property text; non-trivial = distinct reports")
 
     def cases(self, tier, rng):
         for c in rc.product_cases(tier, rng):
             if rc.dup_free(c):
                 yield c
+        for c in both_spellings_cases(tier, random.Random(rng.random())):
+            if rc.dup_free(c):
+                yield c
+        for c in ignored_text_cases(tier, random.Random(rng.random())):
+            if rc.dup_free(c):
+                yield c
+
+
+def _plain_top_texts(c):
+    linked = {l["n"] for l in c.get("liclinks", [])} | {l["target"] for l in c.get("liclinks", []) if l.get("target")}  # links and what alias links point at
+    if any(l["k"] == "dir" for l in c.get("liclinks", [])):
+        return []
+    return [n for n in c["lic"] if "/" not in n and n not in linked and not n.endswith(".license") and not n.startswith(".")
+            and not any(ch in n for ch in "*?[]\\!#\"'") and n == n.strip()]
+
+
+def ignore_some_texts(rng, c):
+    """in a tree that is a Git repository: an ignore rule (root .gitignore or LICENSES/.gitignore) that matches some of the
+    licence texts directly below LICENSES/ — not all: Git lists nothing inside a wholly untracked directory — which stay
+    untracked; the expected report is what it was (every file in LICENSES/ counts)"""
+    if not c.get("git") or c.get("licignore"):
+        return
+    texts = _plain_top_texts(c)
+    if len(texts) < 2:
+        return
+    chosen = rng.sample(texts, rng.randint(1, len(texts) - 1))
+    where = rng.choice(["root", "LICENSES"])
+    c["licignore"] = {"pats": [("/LICENSES/" if where == "root" else "/") + n.replace(" ", "\\ ") for n in chosen], "where": where}
+    c["gitadd"] = True
+
+
+def use_both_spellings(rng, c):
+    """a tree in which some identifier X is used and provided as X.ext: one more tag `X+` (resp. `X` where `X+` is what is used)
+    in another file or in the same one, and now and then the provision renamed to X+.ext — the demanded report follows from the
+    set definitions, occurrence by occurrence"""
+    texts = _plain_top_texts(c)
+    t = rc.table()
+    cands = []
+    for n in texts:
+        ident, has_ext, valid = rc.carried(n)
+        if valid and has_ext and not ident.endswith("+") and ident in rc.used_ids(c) | {rc.base(u) for u in rc.used_ids(c)}:
+            cands.append((n, ident))
+    hdr = [f for f in c["files"] if f["kind"] == "text" and f["how"] == "header" and f.get("exprs") and not f.get("choke")]
+    if not cands or not hdr:
+        return
+    n, x = rng.choice(cands)
+    users = [f for f in hdr if any(x in rc.expr_keys(e) or rc.plus(x) in rc.expr_keys(e) for e in f["exprs"])]
+    f = rng.choice(users) if users and rng.random() < 0.5 else rng.choice(hdr)
+    f["exprs"] = f["exprs"] + [rc.K(x), rc.K(rc.plus(x))] if rng.random() < 0.5 else [rc.K(rc.plus(x))] + f["exprs"] + [rc.K(x)]
+    if rng.random() < 0.4 and rc.plus(x) + n[len(x):] not in c["lic"]:
+        c["lic"][c["lic"].index(n)] = rc.plus(x) + n[len(x):]
+        if n + ".license" in c["lic"]:
+            c["lic"].remove(n + ".license")
 
 
 class TreeStream(InventoryOracle, Stream):
@@ -54,13 +223,20 @@ class TreeStream(InventoryOracle, Stream):
             "aggregate precedence, REUSE.toml hierarchies, dep5 with wildcard paragraphs, sub-directories of LICENSES/, .license companions, in three trees of ten licence "
             "texts reached through symbolic links to files and to directories (inside LICENSES/, elsewhere in the project, outside it) and dangling links, "
             "covered files in directories named like exempt ones (`.github`, `x.git`, `OLD-LICENSES`), non-covered material, some in a Git "
-            "repository with ignored files / directories and covered files named alike) with 0-5 injected defects of 22 kinds; licence categories of the real report vs model vs property definitions")
+            "repository with ignored files / directories and covered files named alike; in every fourth tree that is a Git repository an ignore rule in "
+            ".gitignore or LICENSES/.gitignore matches some of the licence texts, which stay untracked; in every fourth tree one file gets the tags `X` and "
+            "`X+` of an identifier the tree provides as X.ext, the text now and then renamed to X+.ext) with 0-5 injected defects of 22 kinds; licence categories of the real report vs model vs property definitions")
 
     def cases(self, tier, rng):
         k = 0
+        extra = random.Random(rng.random())  # a generator of their own for the additions: the trees stay what they were
         for c in rc.tree_cases(tier, rng):
+            k += 1
+            if k % 4 == 1:
+                ignore_some_texts(extra, c)
+            elif k % 4 == 3:
+                use_both_spellings(extra, c)
             if rc.dup_free(c):
-                k += 1
                 if k % 40 == 0:
                     c["mp"] = True
                 yield c
